@@ -1,6 +1,6 @@
-\* design level, quick: every interleaving of the chunk processes, n <= 20, threads 1..16, MinBatch
+\* design level, quick: every interleaving of the chunk processes, n <= 16, threads 1..16, MinBatch
 \* scaled to 4 and 1; batch_iter_mut! closures of get_power_series / batch_inversion (C14)
 SPECIFICATION Spec
-CONSTANTS MaxN = 20  MinBatches = {1, 4}  Ops = {"pow", "inv"}  GuardEmpty = TRUE  MaxStates = 5000
+CONSTANTS MaxN = 16  MinBatches = {1, 4}  Ops = {"pow", "inv"}  GuardEmpty = TRUE  MaxStates = 3000
 INVARIANT Partition NoRace InBounds Final
 CHECK_DEADLOCK FALSE
